@@ -1,7 +1,14 @@
 /- Driver commands for C12: replay an op history on the ClipperBase model (`HISTREPLAY`), final frame members of the
-ClipperOffset model (`OFFFRAME`). -/
+ClipperOffset model (`OFFFRAME`).
+The add ops of `HISTREPLAY` carry the *paths* handed to `AddPaths`; the local minima they contribute are computed by the
+model of `AddPaths_` (`Model/AddPathsRings.lean`, `toAdded` / `containerOf`), not read from the real object: the state vector
+the harness reads from the real object lists, for every element of `minima_list_` in its current order, the creation number
+of the `LocalMinima` and its vertex point, polytype and is_open, so a wrong number, order or content of computed minima is a
+model divergence. -/
 import ClipperVerif.Driver.Proto
 import ClipperVerif.Model.History
+import ClipperVerif.Model.AddPathsRings
+import ClipperVerif.Model.HistoryPaths
 import ClipperVerif.Model.OffsetState
 namespace Clipper.Driver.C12
 open Clipper Clipper.Proto Clipper.Model
@@ -15,48 +22,46 @@ def stateVec (c : History.Clipper) : String :=
   ++ " " ++ b01 c.sorted ++ b01 c.hasOpen ++ b01 c.succeeded ++ b01 c.preserve ++ b01 c.reverse
   ++ " " ++ (match c.locminIter with | some i => toString i | none => "-")
   ++ " " ++ toString c.vertexLists
-  ++ c.minima.foldl (fun s m => s ++ " " ++ toString m.vid) (" " ++ toString c.minima.length)
+  ++ c.minima.foldl (fun s m => s ++ " " ++ toString m.vid ++ "@" ++ toString m.x ++ "," ++ toString m.y ++ "/" ++
+        (match m.polytype with | .subject => "0" | .clip => "1") ++ b01 m.isOpen) (" " ++ toString c.minima.length)
 
 def polyType : P PathType := do
   match (← nat) with
   | 0 => pure .subject | 1 => pure .clip
   | n => throw s!"bad path type {n}"
 
-/-- `k (y x polytype isopen)*k`, ids from `next` on -/
-def minimaFrom (next : Nat) : P (List History.LocalMin) := do
-  let k ← nat
-  let mut acc : Array History.LocalMin := #[]
-  for j in [0:k] do
-    let y ← int; let x ← int; let pt ← polyType; let o ← bool
-    acc := acc.push ⟨y, x, pt, o, next + j⟩
-  pure acc.toList
+/-- op syntax: `A polytype isopen <paths>` (one `AddPaths(paths, polytype, is_open)` on the clipper; the scaled integer
+paths for ClipperD), `R polytype isopen <paths>` (`AddReuseableData` of a container that was filled by one such call),
+`P b`, `V b`, `E ct fr tree`, `C`. -/
 
 def histReplay : P String := do
   let n ← nat
   let mut c := History.fresh
-  let mut next := 0
+  let mut next := 0            -- size of `minima_list_`
   let mut out : Array String := #[]
   for _ in [0:n] do
     let t ← tok
-    let op : History.Op ← match t with
+    let pop : HistoryPaths.POp ← match t with
       | "A" => do
-        let isOpen ← bool; let nv ← nat
-        let ms ← minimaFrom next
-        next := next + ms.length
-        let a : History.Added := ⟨isOpen, ms, decide (nv > 0)⟩
-        pure (if isOpen then History.Op.addOpenSubject a else History.Op.addSubject a)
+        let pt ← polyType; let isOpen ← bool; let ps ← paths
+        match pt, isOpen with
+        | .subject, false => pure (HistoryPaths.POp.addSubject ps)
+        | .subject, true => pure (HistoryPaths.POp.addOpenSubject ps)
+        | .clip, false => pure (HistoryPaths.POp.addClip ps)
+        | .clip, true => throw "open clip paths: no such public call"
       | "R" => do
-        let ms ← minimaFrom next
-        next := next + ms.length
-        pure (History.Op.addReuseable ⟨ms⟩)
-      | "P" => do pure (History.Op.setPreserve (← bool))
-      | "V" => do pure (History.Op.setReverse (← bool))
+        let pt ← polyType; let isOpen ← bool; let ps ← paths
+        pure (HistoryPaths.POp.addReuseable (HistoryPaths.containerOf pt isOpen ps next))
+      | "P" => do pure (HistoryPaths.POp.setPreserve (← bool))
+      | "V" => do pure (HistoryPaths.POp.setReverse (← bool))
       | "E" => do
         let ct ← clipType; let fr ← fillRule; let tree ← bool
-        pure (History.Op.execute ct fr tree)
-      | "C" => do next := 0; pure History.Op.clear
+        pure (HistoryPaths.POp.execute ct fr tree)
+      | "C" => pure HistoryPaths.POp.clear
       | _ => throw s!"bad op '{t}'"
-    c := (History.step History.nominalSweep c op).1
+    -- exactly the lowering the theorems of Props/C12.lean are about
+    c := (History.step History.nominalSweep c (HistoryPaths.lowerOp next pop)).1
+    next := HistoryPaths.nextCount next pop
     out := out.push (stateVec c)
   done
   pure (" ; ".intercalate out.toList)
